@@ -473,8 +473,10 @@ def run(ctx):
     streams2 = []
     for h1, h2 in pairs:
         parts = []
+        dms = []
         for h in (h1, h2):
             dm, _ = def_message(h['b_defs'], h['d_defs'])
+            dms.append(dm)
             parts += [dm, craft_message(h['ids'], h['bits'])]
         # what DEF1 defined and DEF2 does not mention stays defined: DATA1 once more after DEF2
         ids2 = set(e['id'] for e in h2['b_defs']) | set(q['id'] for q in h2['d_defs'])
@@ -482,6 +484,9 @@ def run(ctx):
         h1['again'] = not (ids1 & ids2)
         if h1['again']:
             parts.append(craft_message(h1['ids'], h1['bits']))
+        else:
+            # DEF2 re-defined some of DEF1's ids: DEF1 sent AGAIN (byte for byte) governs again, DATA1 after it
+            parts += [dms[0], craft_message(h1['ids'], h1['bits'])]
         streams2.append(b''.join(parts))
     with ThreadPoolExecutor(max_workers=8) as ex:
         results2 = list(ex.map(run_child, streams2))
@@ -493,15 +498,18 @@ def run(ctx):
         ctx.count(('history2', j, len(h2['bits'])), True)
         ctx.dist['two definition messages'] += 1
         ctx.dist['redefined-elements-%d' % min(len(redefined), 3)] += 1
-        if 'err' in res or len(res['ok']) != (5 if h1['again'] else 4):
+        if 'err' in res or len(res['ok']) != (5 if h1['again'] else 6):
             ctx.violation({'kind': 'C20-stream-failed', 'case': case, 'result': str(res)[:400]},
-                          'DEF1 DATA1 DEF2 DATA2 [DATA1] did not decode: %s' % str(res.get('err'))[:200])
+                          'DEF1 DATA1 DEF2 DATA2 [DATA1 | DEF1 DATA1] did not decode: %s' % str(res.get('err'))[:200])
             continue
         check_data(ctx, h1, res['ok'][1], douts2[2 * j], dict(case, stage=1))
         check_data(ctx, h2, res['ok'][3], douts2[2 * j + 1], dict(case, stage=2))
         if h1['again']:
             ctx.dist['DATA1 again after an unrelated DEF2'] += 1
             check_data(ctx, h1, res['ok'][4], douts2[2 * j], dict(case, stage='1-again-after-DEF2'))
+        else:
+            ctx.dist['DEF1 repeated after a DEF2 that re-defined its ids, then DATA1'] += 1
+            check_data(ctx, h1, res['ok'][5], douts2[2 * j], dict(case, stage='1-after-DEF1-repeated'))
     # the sample file with in-stream definitions
     f = os.path.join(lib.REPO, 'tests', 'data', 'prepbufr.bufr')
     if os.path.exists(f):
